@@ -661,6 +661,7 @@ pub fn run(tier: Tier) -> i32 {
         }
     }
     zero_parallelism(&mut st);
+    output_policy_values(&mut st);
     let by_dev = |d: u8| all.iter().filter(|c| c.deviations == d).count();
     finish(
         &info,
@@ -732,8 +733,65 @@ fn zero_parallelism(st: &mut Stats) {
     }
 }
 
+/// run configurations whose file output policy carries an odd flush rate (0, negative, huge, not a number): the run may refuse
+/// the configuration, but no batch may take the process down
+fn output_policy_values(st: &mut Stats) {
+    let scratch = Scratch::new("c12o");
+    let spec = AppSpec::simple(base_net());
+    let app = match spec.build(&scratch.path.join("app")) {
+        Ok(a) => a,
+        Err(e) => {
+            st.violation("harness", "app_build", 0, || e.clone(), || json!({"output_policy_values": true}));
+            return;
+        }
+    };
+    let valid = json!({"origin_vertex": 0, "destination_vertex": 4});
+    let bad = json!({"origin_vertex": "x", "destination_vertex": 4});
+    let batches: Vec<(&str, Vec<Value>)> = vec![("valid_query", vec![valid.clone()]), ("failing_query", vec![bad.clone()]), ("mixed_batch", vec![bad, valid.clone(), valid]), ("empty_batch", vec![])];
+    let rates: Vec<Value> = vec![json!(0), json!(-1), json!(1), json!(3), json!(i64::MAX), json!(0.5), json!("2"), Value::Null];
+    let formats = [json!({"type": "json", "newline_delimited": true}), json!({"type": "csv", "sorted": false, "mapping": {"o": "request.origin_vertex"}})];
+    for (ri, rate) in rates.iter().enumerate() {
+        for (fi, format) in formats.iter().enumerate() {
+            for (name, batch) in batches.iter() {
+                st.evaluations += 1;
+                st.transitions += 1;
+                st.traces += 1;
+                st.states += 1;
+                st.nontrivial += 1;
+                let path = scratch.path.join(format!("out_{}_{}_{}.txt", ri, fi, name));
+                let mut pol = json!({"type": "file", "filename": path.to_str().unwrap_or(""), "format": format});
+                if !rate.is_null() {
+                    pol["file_flush_rate"] = rate.clone();
+                }
+                let cfg = json!({"parallelism": 2, "response_output_policy": pol});
+                let comp = "output_policy.file_flush_rate".to_string();
+                let case = || json!({"app": "simple", "output_policy_values": true, "run_configuration": cfg, "what": name, "batch": batch});
+                match guarded(|| app.run(batch.clone(), Some(&cfg)).map_err(|e| e.to_string())) {
+                    Err(p) => st.violation(&comp, "no_panic", batch.len() as u64, || p.clone(), case),
+                    Ok(Err(_)) => st.outcome("output_policy_refused"),
+                    Ok(Ok(r)) => {
+                        if r.len() == batch.len() {
+                            st.pass("one_response_per_query");
+                        } else {
+                            st.violation(&comp, "one_response_per_query", batch.len() as u64, || format!("{} queries, {} responses", batch.len(), r.len()), case);
+                        }
+                    }
+                }
+            }
+        }
+    }
+}
+
 pub fn replay(case: &Value) -> i32 {
     let case = if case.get("case").is_some() && case.get("app").is_none() { &case["case"] } else { case };
+    if case.get("output_policy_values").is_some() {
+        let mut st = Stats::new();
+        output_policy_values(&mut st);
+        for (k, g) in st.violations.iter() {
+            println!("REPLAY-VIOLATION {} ({} cases) {}", k, g.count, g.detail);
+        }
+        return if st.violations.is_empty() { 0 } else { 1 };
+    }
     if case.get("configured_parallelism").and_then(|v| v.as_u64()) == Some(0) {
         // the whole section is run again (twenty calls)
         let mut st = Stats::new();
